@@ -86,10 +86,12 @@ fu('two_getters', ['SET(42)', 'GET(1)', 'GET(2)'], final='vf_check(got[1]==42 &&
 fu('ready_get', ['SET(42)', 'READY_THEN_GET(1)'], props={'assert': 'C08'})
 # timeouts: every negative value, 0, 1..2^16 ns and the 2^16 largest int64 values; clock readings < 2^16 ns (stated bound:
 # 64-bit comparator chains over the full range do not finish within the solver cap)
+FIN_READY = 'vf_check(c->wait_for(std::chrono::nanoseconds(0)), 7); { P2& x = c->get(); vf_check(x.a == 42, 7); }'     # once set: every later wait_for is true, get does not block
 TO = 'VF_TO_ASSUME=vf_assume(to < 65536 || to > INT64_MAX - 65536)'
 TOPT = {'clock': 'ns', 'maxtns': '65536', 'clk': 'bv'}
 fu('wait_for', ['SET(42)', 'WAITFOR(1)'], props={'assert': 'C08'}, opts=TOPT, extra=[TO])
-fu('wait_for_two', ['SET(42)', 'WAITFOR(1)', 'WAITFOR(2)'], props={'assert': 'C08'}, opts=TOPT, extra=[TO], tiers=('thorough',))
+fu('wait_for_two', ['SET(42)', 'WAITFOR(1)', 'WAITFOR(2)'], final=FIN_READY, props={'assert': 'C08'}, opts=TOPT, extra=[TO], tiers=('thorough',))
+fu('timeout0_two', ['SET(42); WAITFOR0(0); vf_check(ret[0] == 1, 7)', 'WAITFOR0(1)', 'WAITFOR0(2)'], props={'assert': 'C08'}, opts=TOPT, models=['sc'], tiers=('thorough',))
 fu('wait_for_unset', ['WAITFOR(0)'], props={'assert': 'C08'}, opts=dict(TOPT, spurious='1'), extra=[TO])
 S('fu_latch', 'future/latch.cpp', FUP)
 
@@ -144,6 +146,8 @@ tp('two_consumers', ['PUB(11);PUB(22);CLOSE()', 'auto c = t->subscribe();CONS1()
 tp('two_consumers_one_item', ['PUB(11);CLOSE()', 'auto c = t->subscribe();CONS1();CONS1()', 'auto c = t->subscribe();CONS2()'], 'vf_check(ngot[1]==1 && got[1][0]==11 && ended[1]==1 && ngot[2]==1 && got[2][0]==11 && ended[2]==1, 1)', tiers=('thorough',))
 tp('batch_pub', ['PUBN2(11,22);CLOSE()', 'auto c = t->subscribe();CONS2();CONS1()'], SEQ12(1))
 tp('after_clear', ['PUB(11);PUB(22);CLOSE()', 'auto c = t->subscribe();CONS1();CONS1();CONS1()'], SEQ12(1), extra=['VF_INIT=t->publish(mk(5)); t->close(); t->clear()'])
+tp('batch_across_block_boundary', ['PUB(11);PUB(22);CLOSE()', 'auto c = t->subscribe(); c._next_consume_index = 125; CONS4(); CONS1()'], 'vf_check(ngot[1]==2 && got[1][0]==11 && got[1][1]==22 && ended[1]==2, 1)',
+   extra=['VF_INIT=t->_slots.reserve(260); t->_next_event_index.store(125)'], models=['sc'])
 tp('two_publishers', ['PUB(11)', 'PUB(22)', 'AWAIT(0);AWAIT(1);CLOSE()' , 'auto c = t->subscribe();CONS1();CONS1();CONS1()'],
    'vf_check(ngot[3]==2 && got[3][0]+got[3][1]==33 && got[3][0]!=got[3][1] && ended[3]==1, 1)', extra=['VF_T0=PUB(11);SIGNAL(0)', 'VF_T1=PUB(22);SIGNAL(1)'])
 
@@ -174,14 +178,15 @@ HSX = ['babylon/concurrent/transient_hash_table.cpp']
 def hs(name, n, ctor=None, exact=False, **kw):
     S('hs_' + name, 'hashset/hs_grow.cpp', {'assert': 'C18'}, extra=HSX, models=['sc'], bound=100, defs=['VF_N=%d' % n] + (['VF_CTOR=' + ctor] if ctor else []) + (['VF_EXACT=1'] if exact else []), **kw)
 hs('default_le6', 6)
+hs('default_le8', 8, tiers=TH)
+hs('sized16_le9', 9, 'Set(16)', tiers=TH)
+hs('default_exact9', 9, exact=True, tiers=TH)
 hs('sized16_le6', 6, 'Set(16)')
 hs('default_exact34', 34, exact=True)
 hs('sized16_exact34', 34, 'Set(16)', exact=True)
 hs('sized4_le6', 6, 'Set(4)')
 S('hs_probe_two_full_groups', 'hashset/hs_probe.cpp', {'assert': 'C18'}, extra=HSX, models=['sc'], bound=100, defs=['VF_FULL_GROUPS=2'])
 S('hs_probe_three_full_groups', 'hashset/hs_probe.cpp', {'assert': 'C18'}, extra=HSX, models=['sc'], bound=100, defs=['VF_FULL_GROUPS=3'])
-hs('default_le36', 36, tiers=('thorough',), timeout=7200)
-hs('sized16_le36', 36, 'Set(16)', tiers=('thorough',), timeout=7200)
 
 # ----------------------------------------------------------------------------------------------- C10: garbage collector
 def gcs(name, ts, final, qcap=2, **kw):
